@@ -117,7 +117,7 @@ fn gen(ch: &mut Ch, thorough: bool) -> Option<Case> {
 }
 
 /// replaces the identifier `from` (as a whole word) by `to`
-fn replace_word(text: &str, from: &str, to: &str) -> String {
+pub fn replace_word(text: &str, from: &str, to: &str) -> String {
     let b: Vec<char> = text.chars().collect();
     let f: Vec<char> = from.chars().collect();
     let mut out = String::new();
